@@ -351,8 +351,9 @@ Definition after_timeout (T : tables) (o : outcome) : stream * conn * list ev :=
       (* delay_close_for_frontend_flush: output still queued *)
       (s, set_timers (set_arm c true true) (c_ftimer c || t_rearm_delay_close T) (c_btimer c), o_ev o ++ [EvWait])
     else
-      (set_done s true, set_closed c,
-       o_ev o ++ (if in_flight s && negb (s_done s) then [EvAbort (s_bcons s)] else []) ++ [EvClose])
+      if in_flight s && negb (s_done s) then
+        (set_done s true, set_closed c, o_ev o ++ [EvAbort (s_bcons s); EvClose])
+      else (s, set_closed c, o_ev o ++ [EvClose])
   else
     (s, set_timers c (c_ftimer c || t_rearm_wait T) (c_btimer c), o_ev o ++ [EvWait]).
 
